@@ -154,6 +154,10 @@ func (c *v03Case) render() string {
 	var sb strings.Builder
 	fmt.Fprintf(&sb, "limit=%d failSendAt=%d sessions=1..%d live=%v\n", c.limit, c.failSendAt, c.nconns, c.live)
 	for i, d := range c.dgrams {
+		if i >= 60 {
+			fmt.Fprintf(&sb, "  … %d more datagrams\n", len(c.dgrams)-i)
+			break
+		}
 		fmt.Fprintf(&sb, "  dgram #%d (%d bytes): %s\n", i, len(d), hex.EncodeToString(d[:min(len(d), 40)]))
 	}
 	for i, s := range c.sends {
@@ -224,6 +228,17 @@ func v03GenCase(rt *rapid.T) *v03Case {
 			raw[0], raw[1], raw[2], raw[3] = 0, 0, 0, 1 // the flood targets session 1
 		}
 		c.dgrams = append(c.dgrams, raw)
+	}
+	if n <= 100 && rapid.IntRange(0, 19).Draw(rt, "bigComplete") == 11 {
+		// a complete 255-fragment message with full-size fragments for a live session (~300 KB reassembled)
+		cnt := rapid.SampledFrom([]int{255, 255, 128}).Draw(rt, "bigCnt")
+		order := make([]int, cnt)
+		for i := range order {
+			order[i] = i
+		}
+		for _, f := range rapid.Permutation(order).Draw(rt, "bigOrder") {
+			c.dgrams = append(c.dgrams, v03EncUDP(1, 777, uint8(f), uint8(cnt), "big:1", v03Fill(1180, byte(f))))
+		}
 	}
 	for k := rapid.IntRange(0, 5).Draw(rt, "nsends"); k > 0; k-- {
 		sz := rapid.SampledFrom([]int{0, 1, 2, 100, 255, 256, 257, 1100, 1200, 1472, 4000, 4077, 4085, 4086, 4087, 4096, 5000, 65507}).Draw(rt, "size")
@@ -367,6 +382,13 @@ func v03Run(c *v03Case) (classes []string, fp string, verr error) {
 	}
 	if total > 2 {
 		classes = append(classes, "rx:hostile-delivered")
+	}
+	for _, g := range got {
+		for _, x := range g {
+			if len(x.data) > 100000 {
+				classes = append(classes, "rx:assembled>100KB")
+			}
+		}
 	}
 	// send path on a fresh manager/conn (the sessions above are closed now; Send does not check that,
 	// exactly like the real udpConn)
